@@ -51,7 +51,8 @@ Full statement / proved / missing
   `C12_dep_queries`, `C12_dep_other`, `C12_dep_wf_run`, `C12_dep_discover` — everything else is the plain model;
   `C12_dep_miss_then_define_partial` — miss, then definition in the dependency loader: resolvable.                  proved
   FULL statement `C12_dep_load_full` (a lookup answers what the dependencies bind whenever the dependency loader holds no
-  value, in every reachable state) is FALSE: `C12_dep_miss_sticky` (known finding C12-dependency-miss-sticky); so is
+  value, in every reachable state) is FALSE: `C12_dep_miss_sticky` (known finding C12-dependency-miss-sticky); its proved
+  part in the same shape is `C12_dep_load_partial` (no ENTRY instead of no value); so is
   "discovery = union over the dependencies" (`C12_dep_discover_union_full`, `C12_dep_discover_unloaded`).
 * letter case: `lower` is Go's `strings.ToLower` (`unicode.ToLower` over the case table regenerated from $GOROOT; idempotent
   by `toLower_idem` + `caseRanges_lowerOK`), so `C12_case` / `C12_case_ops` speak about the real folding.  The typed name as
@@ -515,6 +516,23 @@ def C12_dep_load_full : Prop :=
     bound (runD dps (Sys.init ps) ops).1 d (canon n) = none →
     (stepD dps (runD dps (Sys.init ps) ops).1 (.load d n)).2 = ansOf (depSpec (runD dps (Sys.init ps) ops).1 mods n)
 
+/-- PROVED PART of `C12_dep_load_full`, in its shape: in every state a history produces, a lookup through the dependency
+    loader of a name it holds NO ENTRY for (instead of: no value for) answers what the dependencies bind.  Missing: the
+    states with a cached miss — there the statement is false (`C12_dep_miss_sticky`). -/
+theorem C12_dep_load_partial (ps : List (Option Nat)) (dps : List (Option Mods)) (ops : List Op) (d : Nat) (mods : Mods)
+    (n : Name) (hshape : depShapeOK ps dps = true) (hd : dps.getD d none = some mods) (hlt : d < ps.length)
+    (ha : n.auth = runtimeAuthority) (hp : PartsOK mods n)
+    (hfresh : lk (canon n) ((runD dps (Sys.init ps) ops).1.ents d) = none) :
+    (stepD dps (runD dps (Sys.init ps) ops).1 (.load d n)).2 = ansOf (depSpec (runD dps (Sys.init ps) ops).1 mods n) := by
+  have hroot : ps.getD d none = none := by
+    unfold depShapeOK at hshape
+    have := List.all_eq_true.mp hshape d (List.mem_range.mpr hlt)
+    simp only [hd, Bool.and_eq_true, Option.isNone_iff_eq_none] at this
+    exact this.1
+  refine (C12_dep_first dps _ d mods n ?_ hd ?_ ha hp hfresh).1
+  · rw [runD_ps]; exact hroot
+  · rw [runD_length]; simp [Sys.init]; exact hlt
+
 /-- FULL STATEMENT of "discovery = the union over the dependencies": every name a dependency binds is discovered
     through the dependency loader.  FALSE — `C12_dep_discover_unloaded`; what holds is `C12_dep_discover`. -/
 def C12_dep_discover_union_full : Prop :=
@@ -559,6 +577,11 @@ example : (stepD depDps depSample (.load 4 nBad)).2 = .reported "PCORE_INVALID_C
 example : lk (canon nMq) (depSample.ents 3) = none ∧ depSpec depSample depMods nMq = none ∧
     (runD depDps depSample [.load 3 nMq, .define 3 nMq (.ty 8), .load 3 nMq]).2 = [.notfound, .ok, .found (.ty 8)] := by
   decide +kernel
+-- C12_dep_load_partial: after a history that defines and looks up elsewhere, `b` has no entry in 3
+example : depShapeOK depPs depDps = true ∧ 3 < depPs.length ∧
+    lk (canon nb) ((runD depDps (Sys.init depPs) [.define 2 nb (.ty 2), .load 1 nb, .load 3 nMq]).1.ents 3) = none ∧
+    (stepD depDps (runD depDps (Sys.init depPs) [.define 2 nb (.ty 2), .load 1 nb, .load 3 nMq]).1 (.load 3 nb)).2 =
+      .found (.ty 2) := by decide +kernel
 -- C12_dep_other: the modules and the root are plain loaders
 example : ∀ a ∈ chain depSample.ps 2, depDps.getD a none = none := by decide +kernel
 
